@@ -80,6 +80,9 @@ def make_world():
         "xC": xcube(dims_lists["xC"], interacting_shape=shape),
         "cD": ccube(dims_lists["cD"], interacting_shape=shape),
         "xD": xcube(dims_lists["xD"], interacting_shape=shape),
+        # dimensionless cubes: fill() sees the function object's own arrays whole, not per-cell copies
+        "cZ": ccube([]),
+        "xZ": xcube([]),
     }
     ff = {
         "count": F.ffunc_count(),
@@ -137,6 +140,8 @@ def make_world():
         "stddev_D": X.xfunc_stddev(f2A),
         "quantile_Cn": X.xfunc_quantile(args["f2B"], 0.5, None, True),
         "quantile_D": X.xfunc_quantile(fA, 0.5),
+        "quantile_E": X.xfunc_quantile(args["fC"], 0.5),          # unsorted fact, default policy, no weights
+        "quantile_F": X.xfunc_quantile(args["f2C"], 0.25, None, True),
         "max_C": X.xfunc_max(args["fB"], True),
         "min_D": X.xfunc_min(fA, True, (0, False)),
         "corrcoef_D": X.xfunc_corrcoef(f2A),
@@ -194,6 +199,13 @@ def events(max_sel, func_subset=None):
     for cube in ("cD", "xD"):
         out.append(("calc", cube, ("count",)))
         out.append(("short", cube, "count"))
+    # dimensionless cubes: every function object that carries its own per-row arguments, one at a time
+    for cube in ("cZ", "xZ"):
+        names = sorted(n for n in w["ff" if cube[0] == "c" else "xf"] if n != "count")
+        if func_subset is not None:
+            names = [n for n in names if n in func_subset]
+        for n in names:
+            out.append(("calc", cube, (n,)))
     return out
 
 
